@@ -73,6 +73,9 @@ fn staticize(g: &G, ctx: Option<Val>, changed: &mut u32) -> G {
 
 fn check_inner(sub: &str, g: &G, toks: &[char], l: &mut Local) -> CaseRes {
     let case = || Case::new(ID, sub, g, toks);
+    if too_expensive(g, toks, 8_000, l) {
+        return Ok(());
+    }
     let vs = variants(g, toks);
     let refs: Vec<RefOut> = vs.iter().map(|o| reference::eval(g, toks, o.clone())).collect();
     if refs.iter().any(|r| r.stats.fuel_out) {
